@@ -10,7 +10,8 @@ export GOFLAGS=-mod=mod GOPROXY=off GOSUMDB=off GOTOOLCHAIN=local GOPHERJS_SKIP_
 git -C /repo worktree remove --force "$WT" >/dev/null 2>&1
 git -C /repo worktree add --detach "$WT" HEAD >/dev/null 2>&1 || { echo "$NAME worktree failed"; exit 2; }
 mkdir -p "$WT/SEED/1"; cp -r "$SD/demo" "$WT/SEED/1/demo"; chmod +x "$WT/SEED/1/demo/run.sh" 2>/dev/null
-run_demo() { (cd "$WT" && go build -o "$WT/gopherjs.bin" . ) >/dev/null 2>&1 || return 99; (cd "$WT/SEED/1/demo" && GOPHERJS="$WT/gopherjs.bin" GOPHERJS_NOBUILD=1 WT="$WT" timeout 900 bash ./run.sh "$WT/gopherjs.bin") >"$WT/demo.log" 2>&1; return $?; }
+DEMOARG="$WT/gopherjs.bin"; [ -n "${SEED_WTARG:-}" ] && DEMOARG="$WT"
+run_demo() { (cd "$WT" && go build -o "$WT/gopherjs.bin" . ) >/dev/null 2>&1 || return 99; (cd "$WT/SEED/1/demo" && GOPHERJS="$WT/gopherjs.bin" GOPHERJS_NOBUILD=1 WT="$WT" timeout 900 bash ./run.sh "$DEMOARG") >"$WT/demo.log" 2>&1; return $?; }
 run_demo; clean_rc=$?
 if ! git -C "$WT" apply "$SD/patch.diff" 2>/dev/null; then echo "$NAME PATCH-DOES-NOT-APPLY"; git -C /repo worktree remove --force "$WT"; exit 2; fi
 (cd "$WT" && go build ./...) >/dev/null 2>&1; build_rc=$?
